@@ -42,7 +42,11 @@ RULE = ("a case = (script, fault map): the script fixes mode (foreground/daemon,
         "steps (each family's set-up and restore, hosts file, resolver cache, STARTED write) and pairs of them — "
         "every family that was set up must have its restore attempted; init strings next to the genuine one (every "
         "single-byte substitution by digits/sign/underscore/blank/CR/LF/TAB/NUL, truncations, other spellings "
-        "of the version) each followed by a good ROUTES frame; non-trivial = the run got past ssh.connect; "
+        "of the version) each followed by a good ROUTES frame, and each with nothing after the 12 bytes (the ssh "
+        "pipe is a BLOCKING stream: a read on the exhausted stream of a live ssh never returns and is a verdict, "
+        "on the ended stream of a dead ssh it is EOF); every case runs at a verbosity level from the rotation "
+        "[0,0,3,0,2,0,13,1] shifted by the seed (13 = level 3 with a stderr that raises EIO) — behaviour must not "
+        "depend on it; non-trivial = the run got past ssh.connect; "
         "distinct = distinct canonical input line")
 MANIFEST = dict(
     level_text=("Machine-checked Lean 4 theorems over a statement-by-statement model of client._main and the "
@@ -121,6 +125,33 @@ EVENT_BUDGET = 200000      # trace entries per run
 _watchdog_hits = [0]
 
 
+# Verbosity is a dimension of every scenario: behaviour must not depend on it.  13 = level 3 with a
+# stderr whose write() raises EIO.  The rotation is shifted by the check's seed.
+LEVELS = [0, 0, 3, 0, 2, 0, 13, 1]
+_rot = dict(seed=0, n=0)
+
+
+def next_level():
+    lv = LEVELS[(_rot['n'] + _rot['seed']) % len(LEVELS)]
+    _rot['n'] += 1
+    return lv
+
+
+class EioStderr:
+    def write(self, s):
+        raise OSError(errno.EIO, 'Input/output error')
+
+    def flush(self):
+        raise OSError(errno.EIO, 'Input/output error')
+
+
+def hs_complete(stream):
+    """Two NULs and 12 more bytes are there: the start-up never has to read past the end."""
+    i = stream.find(b'\0')
+    j = stream.find(b'\0', i + 1) if i >= 0 else -1
+    return j >= 0 and len(stream) - (j + 1) >= len(b'SSHUTTLE0001')
+
+
 def watchdog_seconds():
     return WATCHDOG_S if _watchdog_hits[0] == 0 else (3 if _watchdog_hits[0] < 3 else 1)
 LEFT_OVER_S = 2.0          # fake seconds the rules may outlive ssh
@@ -192,6 +223,12 @@ class World:
         self.passes = 0
         self.probe_times = []
         self.eof_reads = 0        # reads of the ssh pipe that found it at EOF
+        self.in_log = 0           # inside helpers.log(): its sys.stdout.flush() is not a call of _main
+        self.level = 0
+        # the ssh pipe is a BLOCKING stream: once the scripted start-of-stream bytes are used up, a read
+        # returns b'' only if the stream really ended (ssh closed its stdout / exited); otherwise the
+        # read would never return.  Default: the stream ends there unless it holds a complete handshake.
+        self.hs_eof = script.get('hs_eof', (not hs_complete(b''.join(script['hs']))) or script['poll0'] is not None)
 
     def give_up(self, reason, what):
         if not self.stuck:
@@ -273,6 +310,9 @@ class PipeR:
 
     def read(self, n=-1):
         w = self.w
+        if not w.chunks and not w.polled0 and not w.hs_eof:
+            w.call('hsread')
+            w.give_up('block', 'read() on the exhausted stream of a live ssh: would block for ever')
         if not w.chunks:
             # a stream that has ended answers b'' for ever; code that keeps asking never ends
             w.eof_reads += 1
@@ -281,7 +321,10 @@ class PipeR:
         w.call('mread' if w.polled0 else 'hsread')
         if not w.chunks:
             if w.polled0 and not w.eof:
-                raise _Bug('mux read although nothing pending')
+                if w.passes == 0:
+                    # still in start-up: the descriptor is blocking (Mux.fill has not switched it yet)
+                    w.give_up('block', 'read() on the exhausted stream of a live ssh: would block for ever')
+                raise BlockingIOError(errno.EAGAIN, 'Resource temporarily unavailable')
             if w.polled0:
                 w.info.append((len(w.events) - 1, 'muxeof', None))
             return b''
@@ -508,6 +551,8 @@ class Stdout:
         return len(s)
 
     def flush(self):
+        if self.w.in_log:
+            return                # helpers.log() flushes stdout before it writes: not a call of _main
         self.w.call('outflush')
 
 
@@ -590,14 +635,23 @@ def _mods():
     return ssnet, client, helpers, ssh, sdnotify, BaseMethod
 
 
-def run_real(script, faults, realfw=False):
+def run_real(script, faults, realfw=False, level=None):
     """Run the real client.main on the scripted world.  Returns (events, outcome, world).
     `realfw`: the real FirewallClient (__init__/setup/start/done) over a real socketpair to a
     HelperStandIn instead of the recording subclass."""
     ssnet, client, helpers, ssh, sdnotify, BaseMethod = _mods()
     w = World(script, faults, helpers)
+    w.level = next_level() if level is None else level
     instances = []
     standins = []
+    real_log = helpers.log
+
+    def wlog(msg):
+        w.in_log += 1
+        try:
+            real_log(msg)
+        finally:
+            w.in_log -= 1
     OrigFw, OrigListener, OrigMux = client.FirewallClient, client.MultiListener, ssnet.Mux
 
     class Method(BaseMethod):
@@ -730,7 +784,9 @@ def run_real(script, faults, realfw=False):
         client.get_method = lambda name: Method('fake')
     client.MultiListener = RecListener
     client.Mux = RecMux
-    client.log = lambda s: None
+    s_hlog = helpers.log
+    helpers.log = wlog
+    client.log = wlog
     client.check_daemon = lambda pidfile: None
     def daemonize():
         w.call('daemonize')
@@ -740,12 +796,13 @@ def run_real(script, faults, realfw=False):
     ssh.connect = connect
     ssnet.runonce = runonce
     ssnet.select = FakeSelect(w)
-    ssnet.log = lambda s: None
+    ssnet.log = wlog
     sdnotify.send = notify
     os.kill = kill
-    helpers.verbose = 0
+    # order matters: a garbage collection in between must not log to the real stderr
+    sys.stderr = EioStderr() if w.level == 13 else io.StringIO()
     sys.stdout = Stdout(w)
-    sys.stderr = io.StringIO()
+    helpers.verbose = 3 if w.level == 13 else w.level
     client.dnsreqs.clear()
     client.udp_by_src.clear()
     try:
@@ -773,7 +830,9 @@ def run_real(script, faults, realfw=False):
         ssh.connect, ssnet.runonce, ssnet.select, ssnet.log, sdnotify.send = \
             s_connect, s_runonce, s_select, s_sslog, s_send
         os.kill = real_kill
-        sys.stdout, sys.stderr, helpers.logprefix, helpers.verbose = s_stdout, s_stderr, s_prefix, s_verbose
+        helpers.verbose = s_verbose
+        sys.stdout, sys.stderr, helpers.logprefix = s_stdout, s_stderr, s_prefix
+        helpers.log = s_hlog
     if realfw:
         # the client is done; give the far end a moment (daemon mode does not wait for it), take the
         # verdict, then release whatever the client side still holds and collect the thread
@@ -977,13 +1036,14 @@ def oracle(script, faults, events, outcome, w):
         how = {'sleep': 'went to sleep in select() with nothing that could wake it',
                'budget': 'used up its pass budget', 'watchdog': 'ran into the wall-clock watchdog',
                'eof-reads': 'kept reading the ssh pipe after it had reached EOF (%d reads)' % w.eof_reads,
-               'calls': 'used up its boundary-call budget'}[reason]
+               'calls': 'used up its boundary-call budget',
+               'block': 'blocked for ever in read() on the exhausted stream of a live ssh'}[reason]
         tail = ' '.join(before[-12:])
-        if not w.polled0:
+        if w.passes == 0:
             bad.append(('C12:handshake-never-ends',
                         'a server stream that ends before the handshake is complete gives Fatal and the control channel is closed',
-                        'start-up %s; stream %r; %d boundary calls, pfile %s; last events: %s'
-                        % (how, [hexb(c) for c in script['hs']], w.calls, 'open' if open_then else 'closed', tail)))
+                        'start-up %s; stream %r; verbosity %d; %d boundary calls, pfile %s; last events: %s'
+                        % (how, [hexb(c) for c in script['hs']], w.level, w.calls, 'open' if open_then else 'closed', tail)))
         elif w.dead_rv is not None and started and open_then:
             bad.append(('C12:stuck-after-ssh-death',
                         'once ssh has exited the main loop ends and the control channel is closed',
@@ -1129,7 +1189,7 @@ def negative_alive(s):
 
 
 class Case:
-    __slots__ = ('script', 'faults', 'line', 'out')
+    __slots__ = ('script', 'faults', 'line', 'out', 'level')
 
 
 def eof_loop_continues(ev, w):
@@ -1147,13 +1207,15 @@ def run_case(ctx, script, faults, cases):
         ctx.hist('tunnel-eof-loop-continues')
     for key, exp, obs in oracle(script, faults, ev, outcome, w):
         if len(ctx.violations) < 400:
-            ctx.violation(key, case=dict(script=ser_script(script), faults={str(k): v for k, v in faults.items()}),
+            ctx.violation(key, case=dict(script=ser_script(script), faults={str(k): v for k, v in faults.items()},
+                                         level=w.level),
                           expected=exp, observed=obs + ' | trace: ' + ' '.join(ev[:120]) +
                           (' ... ' if len(ev) > 120 else ' ') + outcome, kind='faults')
     c = Case()
     c.script, c.faults = script, faults
     c.line = script_line(script, faults)
     c.out = ' '.join(ev + [outcome])
+    c.level = w.level
     cases.append(c)
     return ev, outcome, w
 
@@ -1254,6 +1316,10 @@ def near_handshake_scripts(ssnet):
     out = []
     for v in variants:
         out.append(dict(base, hs=[b'\0\0' + v + r], steps=[dict(quiet, grant=4096), dict(quiet)]))
+    # the same strings with NOTHING after the 12 bytes: ssh is alive and the stream just pauses, so any
+    # further read during start-up would block for ever; the ROUTES frame arrives in the first loop round
+    for v in variants:
+        out.append(dict(base, hs=[b'\0\0' + v], steps=[dict(quiet, arrive=r, grant=4096), dict(quiet)]))
     for n in range(len(SYNC)):
         out.append(dict(base, hs=[b'\0\0' + SYNC[:n]], steps=[dict(quiet, arrive=r), dict(quiet)]))
     return out
@@ -1352,7 +1418,8 @@ def compare(ctx, cases):
     for i, mo in zip(mon_idx, outs[len(cases):]):
         if not mo.startswith('ok=1'):
             c = cases[i]
-            ctx.violation('C12:spec-monitor', case=dict(script=ser_script(c.script), faults={str(k): v for k, v in c.faults.items()}),
+            ctx.violation('C12:spec-monitor', case=dict(script=ser_script(c.script), faults={str(k): v for k, v in c.faults.items()},
+                                                        level=getattr(c, 'level', 0)),
                           expected='the Lean specification monitor accepts the trace of the real code (ok=1)',
                           observed=mo + ' | trace: ' + c.out, kind='faults')
 
@@ -1462,7 +1529,7 @@ def timed_stream(ctx):
         ctx.mark(('timed', ser_script(s)), nontrivial=True)
         for key, exp, obs in oracle(s, {}, ev, outcome, w):
             nbad += 1
-            ctx.violation(key, case=dict(timed=True, script=ser_script(s), faults={}), expected=exp,
+            ctx.violation(key, case=dict(timed=True, script=ser_script(s), faults={}, level=w.level), expected=exp,
                           observed=obs + ' | history: %r | trace: %s %s' % (s['history'], ' '.join(ev[-40:]), outcome),
                           kind='history')
         ctx.sample(dict(stream='timed history', history=s['history'], daemon=s['daemon'],
@@ -1521,6 +1588,9 @@ def run_helper(case):
     ssnet, client, helpers, ssh, sdnotify, BaseMethod = _mods()
     import sshuttle.firewall as firewall
     fams, tail, faults = case['fams'], case['tail'], case['faults']
+    if 'level' not in case:
+        case['level'] = next_level()
+    level = case['level']
     log = []
     nflush = [0]
 
@@ -1589,8 +1659,8 @@ def run_helper(case):
     firewall.rewrite_etc_hosts = rewrite
     firewall.restore_etc_hosts = restore_hosts
     firewall.flush_systemd_dns_cache = flush_dns
-    helpers.verbose = 0
-    sys.stderr = io.StringIO()
+    sys.stderr = EioStderr() if level == 13 else io.StringIO()
+    helpers.verbose = 3 if level == 13 else level
     try:
         try:
             firewall.main('fake', False)
@@ -1598,6 +1668,7 @@ def run_helper(case):
         except BaseException as e:  # noqa
             log.append('exc=' + kind_of(e, helpers))
     finally:
+        helpers.verbose = saved[6]
         (firewall.setup_daemon, firewall.get_method, firewall.rewrite_etc_hosts, firewall.restore_etc_hosts,
          firewall.flush_systemd_dns_cache, helpers.logprefix, helpers.verbose, sys.stderr) = saved
     return log
@@ -1683,7 +1754,8 @@ def realfw_stream(ctx):
             ctx.mark(('realfw', ser_script(s), sorted(f.items())), nontrivial=(0 not in f))
             for key, exp, obs in oracle_realfw(s, f, ev, outcome, w):
                 nbad += 1
-                ctx.violation(key, case=dict(realfw=True, script=ser_script(s), faults={str(k): v for k, v in f.items()}),
+                ctx.violation(key, case=dict(realfw=True, script=ser_script(s), faults={str(k): v for k, v in f.items()},
+                                             level=w.level),
                               expected=exp, observed=obs, kind='faults')
         ctx.sample(dict(stream='real FirewallClient over a socketpair', script=ser_script(s), real_code_trace=' '.join(ev) + ' ' + outcome), limit=8)
     gc.collect()
@@ -1693,6 +1765,7 @@ def realfw_stream(ctx):
 
 
 def run(ctx):
+    _rot['seed'], _rot['n'] = ctx.seed, 0
     env_probe(ctx)
     realfw_stream(ctx)
     timed_stream(ctx)
@@ -1722,12 +1795,13 @@ def replay(ctx, rep):
         return bool(c2.violations), 'environment probe: %r' % (c2.violations[:1] or 'as assumed')
     s = deser_script(case['script'])
     faults = {int(k): v for k, v in case['faults'].items()}
+    level = case.get('level', 0)
     if case.get('realfw'):
-        ev, outcome, w = run_real(s, faults, realfw=True)
+        ev, outcome, w = run_real(s, faults, realfw=True, level=level)
         bad = oracle_realfw(s, faults, ev, outcome, w)
         return bool(bad), 'trace: %s %s; oracle: %s' % (' '.join(w.verdict_events), outcome,
                                                         '; '.join('%s (%s)' % (b[0], b[2][:200]) for b in bad) or 'silent')
-    ev, outcome, w = run_real(s, faults)
+    ev, outcome, w = run_real(s, faults, level=level)
     bad = oracle(s, faults, ev, outcome, w)
     key = rep.get('key')
     same = [b for b in bad if key is None or b[0] == key or key == 'C12:spec-monitor']
